@@ -38,7 +38,7 @@ try:
     # command
     cmd = None
     for line in demo_txt.replace('\\\n', ' ').split('\n'):
-        if 'go test' in line:
+        if 'go test' in line and ' ./' in line[line.index('go test'):]:
             cmd = line[line.index('go test'):].strip().rstrip('`').strip()
             break
     if not cmd:
